@@ -186,6 +186,9 @@ theorem parseFv_ok_fields (h : Hooks) (fuel : Nat) (data : Bytes) (off : Nat) (r
     | ok blocks =>
       rw [hrb] at hp
       simp only at hp
+      by_cases hbm : 56 + 8 * (blocks.length + 1) > (fvInfoOf data blocks off rs).length
+      · rw [if_pos hbm] at hp; simp at hp
+      rw [if_neg hbm] at hp
       cases hsp : setPolarity (polOfAttrs (fvInfoOf data blocks off rs).attrs) st with
       | error e => rw [hsp] at hp; simp at hp
       | ok stp =>
